@@ -477,6 +477,11 @@ def features_reply_starts_deferral_and_sends_the_barrier(b):
     cs = dict(cs)
     cs[OF + "Connection.disconnect"] = DiscSpec()
     cs["pox.lib.util:dpid_to_str"] = CallSpec("opaque", returns=lambda I, st, a, k: "dpid", envelope="text")
+    # the registry is written when the handshake is FINISHED (_finish_connecting), not here: a connection that is still
+    # shaking hands must not take over its datapath id (seeded change C09_10 registered it at the features reply - a newcomer
+    # lost before its barrier reply then removed the entry of the old, still open connection)
+    cs["pox.openflow:OpenFlowNexus._connect"] = CallSpec("contract", requires=lambda I, st, a, k: False,
+                                                         envelope="must not be called during the handshake")
   else:
     core = CoreStub()
     core.OpenFlowConnectionArbiter = Arbiter(nexus if have_nexus else None)
